@@ -133,8 +133,12 @@ class BitArray(Bits):
             if len(x) != dtype.bitlength:
                 raise CreationError(f"Can't initialise with value of length {len(x)} bits, "
                                     f"as attribute has length of {dtype.bitlength} bits.")
+            length_before = len(self)
             # The new store may be shared with an immutable source (or the string cache), so take a private copy.
             self._bitstore = x._bitstore._copy() if x._bitstore.immutable else x._bitstore
+            if len(self) != length_before and hasattr(self, '_pos'):
+                # As for other length-changing operations on a stream, the bit position is reset.
+                self._pos = 0
             return
 
     def __iadd__(self, bs: BitsType) -> BitArray:
